@@ -139,7 +139,15 @@ impl Vm {
       Some(existing_package) => match existing_package.import(import) {
         Ok(module) => ImportResult::Loaded(module),
         Err(err) => match err {
-          ImportError::ModuleDoesNotExist => self.load_missing_module(existing_package, import),
+          // only the project's own package is backed by files, a module another package does
+          // not have does not exist
+          ImportError::ModuleDoesNotExist => {
+            if &*import.package() == laythe_core::constants::SELF {
+              self.load_missing_module(existing_package, import)
+            } else {
+              ImportResult::NotFound
+            }
+          },
           ImportError::PackageDoesNotMatch => panic!("Unexpected package mismatch"),
           _ => unreachable!(),
         },
